@@ -55,6 +55,14 @@ def run(rep, tier, seed, proof_broken=False):
                 rep.classes.add("%s|%s|%s|ps%d" % (line.split(" ")[0], a.split(" ")[0], pk, ps))
             log = d.server.state.take_log()
             probs = d.compare_trees()
+            for x in list(d.diffs):
+                # C09-K1 seen through the two back ends: after a commit that failed once the duplicates had been
+                # removed, which duplicate survived depends on hash order, so removing a path breaks the staged
+                # object on one side only
+                k = known_c09k1(x, d.hist)
+                if k:
+                    rep.known("C09-K1", "`%s`: one back end answers '%s' after a failed commit of that object (which duplicate the failed commit kept differs by hash order)" % (x["line"], "Digest ... not found in manifest"))
+                    d.diffs.remove(x)
             for x in d.diffs[:3]:
                 fails.append(dict(what="`%s` answers differently on S3 (prefix %r, page size %d, layout %s)" % (x["line"], prefix, ps, layout[0]), fs=x["fs"], s3=x["s3"], history=d.hist[-25:], full_history=list(d.hist)))
             for p in probs[:2]:
@@ -75,6 +83,24 @@ def run(rep, tier, seed, proof_broken=False):
         rep.violation(dict(kind="oracle-failure", **f))
     if dis and not fails:
         rep.violation(dict(kind="correspondence-broken", correspondence=CORRESPONDENCE, what=dis[0], disagreeing=len(dis)), no_input=True)
+
+
+NOT_IN_MANIFEST = "not found in manifest".encode().hex()
+
+
+def known_c09k1(x, hist):
+    """the differing answer is 'Digest … not found in manifest' on one side for an object whose commit failed
+    earlier in this history with IllegalState / NotFound (i.e. after the duplicates were removed)"""
+    if (NOT_IN_MANIFEST in x["fs"]) == (NOT_IN_MANIFEST in x["s3"]):
+        return False
+    m = re.match(r"\w+ ('(?:[^'\\]|\\.)*')", x["line"])
+    if not m:
+        return False
+    oid = m.group(1)
+    for h in hist:
+        if (h.startswith("commit %s " % oid) or h.startswith("upgrade %s " % oid)) and ("-> fs:err:illegalState" in h or "-> fs:err:notFound" in h):
+            return True
+    return False
 
 
 def listing_check(rep, d, log, ps):
